@@ -133,6 +133,9 @@ func contractTextOf(c *Contract) string {
 	return sb.String()
 }
 
+// inUnit is set by runUnit: membership in the verified set of the current unit.
+var inUnit = func(f *ssa.Function) bool { return false }
+
 // runUnit verifies every function of pkg matching filter against the contracts of one unit.
 func runUnit(file, unit, filterS, pkg string, attrs map[string]string, smtdir string, text bool) UnitReport {
 	rep := UnitReport{Unit: unit, File: file, Pkg: pkg, Filter: filterS, Attrs: attrs, FieldMode: fieldMode, FrameCheck: os.Getenv("GOVC_FRAME") != "", ContractText: map[string]string{}}
@@ -154,6 +157,30 @@ func runUnit(file, unit, filterS, pkg string, attrs map[string]string, smtdir st
 	rep.LoadS = loadS
 	used := map[string]bool{}
 	verified := map[string]bool{}
+	// inUnit: the function is among those this unit verifies (filter, files=, exclude=)
+	inUnit = func(f *ssa.Function) bool {
+		if !filter.MatchString(f.String()) {
+			return false
+		}
+		if fl := attrs["files"]; fl != "" {
+			base := filepath.Base(prog.Fset.Position(f.Pos()).Filename)
+			okf := false
+			for _, x := range strings.Split(fl, ",") {
+				if x == base {
+					okf = true
+				}
+			}
+			if !okf {
+				return false
+			}
+		}
+		if ex := attrs["exclude"]; ex != "" {
+			if m, _ := regexp.MatchString(ex, f.String()); m {
+				return false
+			}
+		}
+		return true
+	}
 	for _, p := range spkgs {
 		if p == nil {
 			continue
@@ -211,6 +238,7 @@ func runUnit(file, unit, filterS, pkg string, attrs map[string]string, smtdir st
 					}
 				}()
 				g.run()
+				g.checkAtCallUsed()
 			}()
 			fr.GenS = time.Since(t0).Seconds()
 			fr.CexPlan = cexPlanFor(g)
